@@ -1,15 +1,62 @@
-"""Native search for a failing input of a failed obligation (no Verus counterexample exists).
-Searchers are small Rust programs under /verif/replay that compile the *real* source files of
-/repo (by #[path]) and evaluate the obligation's predicate over a boundary grid / exhaustively."""
+"""Native search for a failing input of a failed obligation (Verus gives no counterexample).
+
+Searchers are small Rust programs under /verif/replay/<unit>/ that compile the *real* source
+files of /repo (included by #[path], regenerated from the current working tree on every
+search) and evaluate the obligation's predicate exhaustively (all 7.3M dates) or over a
+boundary grid, against an oracle written from the property statement."""
 import os
+import re
+import shutil
 import subprocess
 
 VERIF = os.path.dirname(os.path.dirname(os.path.abspath(__file__)))
+BUILD = os.path.join(VERIF, "build")
+
+# obligation prefix -> (replay crate, shared dir relative to repo)
+SEARCHERS = {
+    "itime/": ("itime", "src/shared"),
+    "itime_static/": ("itime", "crates/jiff-static/src/shared"),
+}
+
+
+def _prepare(crate, repo, shared_rel, tag):
+    src = os.path.join(VERIF, "replay", crate)
+    dst = os.path.join(BUILD, "replay-%s-%s" % (crate, tag))
+    os.makedirs(os.path.join(dst, "src"), exist_ok=True)
+    shutil.copy(os.path.join(src, "Cargo.toml"), os.path.join(dst, "Cargo.toml"))
+    t = open(os.path.join(src, "src", "main.rs.tmpl")).read()
+    t = t.replace("@SHARED@", os.path.join(os.path.abspath(repo), shared_rel)).replace("@REPO@", os.path.abspath(repo))
+    with open(os.path.join(dst, "src", "main.rs"), "w") as f:
+        f.write(t)
+    return dst
+
+
+def _run(dst, fn, timeout=600):
+    env = dict(os.environ)
+    env["CARGO_NET_OFFLINE"] = "true"
+    env["CARGO_TARGET_DIR"] = os.path.join(dst, "target")
+    p = subprocess.run(["cargo", "run", "--release", "--offline", "-q", "--", fn], cwd=dst, env=env,
+                       stdout=subprocess.PIPE, stderr=subprocess.PIPE, text=True, timeout=timeout)
+    return p.stdout, p.stderr, p.returncode
 
 
 def search(obligation, repo):
+    for prefix, (crate, shared_rel) in SEARCHERS.items():
+        if obligation.startswith(prefix):
+            fn = obligation[len(prefix):]
+            dst = _prepare(crate, repo, shared_rel, prefix.strip("/"))
+            out, err, rc = _run(dst, fn)
+            m = re.search(r"(?m)^WITNESS (.*)$", out)
+            if m:
+                return {"searcher": "replay/%s (real %s/util/itime.rs compiled natively, oracle = successor-built Gregorian calendar)" % (crate, shared_rel),
+                        "witness": m.group(1),
+                        "rerun": "cd %s && cargo run --release --offline -q -- '%s'" % (dst, fn)}
+            return None
     return None
 
 
 def replay(obligation, failing_input, repo):
-    return False
+    w = search(obligation, repo)
+    if w:
+        print(w["witness"])
+    return w is not None
